@@ -71,7 +71,7 @@ func runC29(c *Ctx) {
 		}
 		// the maximum-value test dominates every success return
 		for i, r := range returns(f) {
-			if len(r.Results) == 3 && isNilConst(r.Results[2]) {
+			if len(r.Results) == 3 && isNilConst(rvs(r)[2]) {
 				ok := dominatedByFact(r, func(t string) bool { return strings.HasSuffix(t, "> 268435455") }, false)
 				c.ob("C29.b value-limit", fmt.Sprintf("packets.DecodeLength: success return#%d is reached only after value <= 268435455", i+1), c.pos(r.Pos()), ok,
 					"the accumulated value must be compared with the specification maximum before it is returned")
@@ -467,7 +467,7 @@ func runC42(c *Ctx) {
 	if f := c.fn("mqtt", "(*Server).processDisconnect"); f != nil {
 		found := false
 		for _, r := range returns(f) {
-			if describe(r.Results[0]) == "packets.CodeDisconnectWillMessage" {
+			if describe(rvs(r)[0]) == "packets.CodeDisconnectWillMessage" {
 				found = true
 				ok := dominatedByFact(r, func(t string) bool { return t == "pk.ReasonCode == packets.CodeDisconnectWillMessage.Code" }, true)
 				c.ob("C42.c will-disconnect", "(*mqtt.Server).processDisconnect: returns CodeDisconnectWillMessage exactly on ReasonCode == 0x04", c.pos(r.Pos()), ok, "")
